@@ -168,6 +168,43 @@ Definition ovni_ev_size (sx : penv) (st : pstate) (p : ptr_ev) : Z := Loader_gen
 Definition next_ev_size (sx : penv) (st : pstate) (p : ptr_ev) (left : Z) : Z := LoaderStep_gen.next_ev_size (evview st p) left.
 Definition ovni_ev_get_clock (sx : penv) (st : pstate) (p : ptr_ev) : Z := get_header_clock (evview st p).
 
+(* ------------------------------------------------------------------ loading (check_stream_header, load_obs) *)
+(* g_buf / g_junk of a stream are the file on disk from the start: open / fstat / mmap only "deliver" it.
+   load_stream_fd (fstat + mmap, NOT translated: struct stat by value, MAP_FAILED) refuses an empty file and
+   otherwise sets size := the length of the file; open always succeeds (fd 3), close succeeds; usize (read only by
+   stream_progress, not translated) is not represented: its setter only checks the pointer. *)
+Definition ptr_hdr := option (nat * Z)%type.
+Definition ptr_str := option unit.
+Definition get_stream_buf (sx : penv) (st : pstate) (p : ptr_stream) : ptr_byte := match p with Some id => Some (id, 0) | None => None end.
+Definition hdr_of_byte (b : ptr_byte) : ptr_hdr := b.
+Definition get_ovni_stream_header_magic (sx : penv) (st : pstate) (h : ptr_hdr) : list Z :=
+  match h with
+  | Some (id, pos) => let g := nth id (streams st) g0 in
+                      map (fun k => rd (g_buf g) (g_junk g) (pos + pre_off_magic + Z.of_nat k)) (seq 0 4)
+  | None => []
+  end.
+Definition get_ovni_stream_header_version (sx : penv) (st : pstate) (h : ptr_hdr) : Z :=
+  match h with
+  | Some (id, pos) => let g := nth id (streams st) g0 in rd_le (g_buf g) (g_junk g) (pos + pre_off_version) 4
+  | None => 0
+  end.
+Fixpoint leqb (a b : list Z) : bool :=
+  match a, b with
+  | [], [] => true
+  | x :: a', y :: b' => (x =? y) && leqb a' b'
+  | _, _ => false
+  end.
+(* memcmp(a, "literal", n): 0 iff the first n bytes agree (only that is used) *)
+Definition memcmp_lit (a lit : list Z) (n : Z) : Z :=
+  if leqb (firstn (Z.to_nat n) a) (firstn (Z.to_nat n) lit) then 0 else 1.
+Definition w_size (v : Z) (g : gstream) : gstream :=
+  mk_gstream (g_buf g) (g_junk g) (g_cur g) v (g_lastclock g) (g_deltaclock g) (g_clkoff g) (g_active g) (g_unsorted g) (g_offset g).
+Definition set_stream_usize (p : ptr_stream) (v : penv -> pstate -> Z) : M unit := fun sx st => putp p (fun g => g) sx st.
+Definition open (path : ptr_str) (flags : Z) : M Z := ret 3.
+Definition close (fd : Z) : M unit := ret tt.
+Definition load_stream_fd (p : ptr_stream) (fd : Z) : M unit :=
+  fun sx st => if blen (g_buf (gs st p)) =? 0 then Fail E_FAIL else putp p (fun g => w_size (blen (g_buf g)) g) sx st.
+
 (* ------------------------------------------------------------------ player *)
 
 Definition get_player_firstclock (sx : penv) (st : pstate) (p : ptr_player) : Z := q_firstclock (pl st).
@@ -225,6 +262,35 @@ Definition heap_pop_max (h : ptr_heap) (f : fnptr) : M ptr_node :=
                end.
 Definition emu_ev (e : ptr_emu_ev) (oev : ptr_ev) (sclock dclock : Z) : M unit :=
   putq e (w_ev (Some (oev, sclock, dclock))).
+
+(* ------------------------------------------------------------------ player_init / check_clock_gate *)
+(* DL_FOREACH(trace->streams, stream): the streams of the trace in list order (the list is the state's, sorted by
+   trace_load: unit cmp_player); the body is translated, the iteration is this primitive.  memset(player, 0, ..)
+   and heap_init reset the player; player->trace is not represented (its setter only checks the pointer). *)
+Definition ptr_trace := option unit.
+Fixpoint foreach_ids {C} (ids : list nat) (body : ptr_stream -> C -> M C) (c : C) : M C :=
+  fun sx st =>
+    match ids with
+    | [] => Done c st
+    | i :: t => match body (Some i) c sx st with
+                | Done c' st' => foreach_ids t body c' sx st'
+                | Stop s => Stop s
+                | Fail e => Fail e
+                end
+    end.
+Definition foreach_stream {C} (tr : ptr_trace) (body : ptr_stream -> C -> M C) (c : C) : M C :=
+  fun sx st => match tr with
+               | Some _ => foreach_ids (seq 0 (length (streams st))) body c sx st
+               | None => Fail E_TRAP
+               end.
+Definition q0 : gplayer := mk_gplayer [] 0 0 0 0 0 0 None None.
+Definition zero_player (p : ptr_player) : M unit := putq p (fun _ => q0).
+Definition heap_init (h : ptr_heap) : M unit := putq h (w_heap []).
+Definition set_player_trace (p : ptr_player) (v : penv -> pstate -> ptr_trace) : M unit := putq p (fun q => q).
+Definition w_qunsorted (v : Z) (q : gplayer) : gplayer :=
+  mk_gplayer (q_heap q) (q_firstclock q) (q_lastclock q) (q_deltaclock q) (q_nprocessed q) (q_first_event q) v (q_stream q) (q_ev q).
+Definition set_player_unsorted (p : ptr_player) (v : penv -> pstate -> Z) : M unit := fun sx st => putq p (w_qunsorted (v sx st)) sx st.
+Definition llabs (sx : penv) (st : pstate) (z : Z) : Z := Z.abs z.
 
 (* ================================================================== hand-written reading (names m_...) *)
 
@@ -291,4 +357,14 @@ Definition m_player_step (st : pstate) : res unit :=
   match q_stream (pl st) with
   | None => m_pop_emit st
   | Some id => match m_step_stream st id with Done _ s | Stop s => m_pop_emit s | Fail e => Fail e end
+  end.
+
+(* player_init: one stream of the loop, the loop, the whole function (readings) *)
+Definition m_init_stream (unsorted : Z) (st : pstate) (id : nat) : res unit :=
+  let st1 := if negb (unsorted =? 0) then put st id (w_unsorted 1 (nth id (streams st) g0)) else st in
+  match m_step_stream st1 id with Done _ s | Stop s => Done tt s | Fail e => Fail e end.
+Fixpoint m_init_all (unsorted : Z) (ids : list nat) (st : pstate) : res unit :=
+  match ids with
+  | [] => Done tt st
+  | i :: t => match m_init_stream unsorted st i with Done _ s | Stop s => m_init_all unsorted t s | Fail e => Fail e end
   end.
